@@ -13,3 +13,4 @@ pub(crate) fn lossy_stub(_v: &[u8]) -> std::borrow::Cow<'_, str> {
 
 mod c07;
 mod c08;
+mod probe;
